@@ -339,6 +339,10 @@ func checkC10(c *Ctx, r *Report) {
 			continue
 		}
 		sel := apOf(inner).SelString()
+		// a connection field that only ever holds backoff.WithContext(<inner>, ·): resetting <inner> resets it
+		if wsel, ok := c.wrapperInner(sel); ok {
+			sel = wsel
+		}
 		found := false
 		allInstrs(rs.Parent, false, func(in ssa.Instruction) {
 			if isCallTo(in, fnBackoffReset) {
@@ -429,4 +433,29 @@ func (c *Ctx) sendCommandImpls() []*ssa.Function {
 		}
 	}
 	return out
+}
+
+
+// wrapperInner: if every store to the field with selector sel is the result of
+// backoff.WithContext(x, ·), return x's selector.
+func (c *Ctx) wrapperInner(sel string) (string, bool) {
+	inner := ""
+	n := 0
+	okAll := true
+	for _, fn := range c.LibFuncs() {
+		allInstrs(fn, false, func(in ssa.Instruction) {
+			s, _, st, ok := storeSel(in)
+			if !ok || s != sel {
+				return
+			}
+			n++
+			call, isCall := stripConv(st.Val).(*ssa.Call)
+			if !isCall || !isCallTo(call, fnBackoffWithCtx) {
+				okAll = false
+				return
+			}
+			inner = apOf(stripConv(call.Call.Args[0])).SelString()
+		})
+	}
+	return inner, n > 0 && okAll && inner != ""
 }
